@@ -31,6 +31,7 @@ package dataset
 //@   ensures [version-deleted-iff-equal-to-the-last-kept-one] ret1 == nil && !isFirstVersion && equalG ==> ret0 != nil && len(ret0.DeleteKeys) >= 1 && ret0.DeleteKeys[0] == jsonKey
 //@   ensures [latest-pointer-repointed-to-the-kept-version] ret1 == nil && !isFirstVersion && equalG && isLatestVersion ==> len(ret0.RewriteKeys) == 1 && len(ret0.RewriteValues) == 1 && ret0.RewriteValues[0] == old(d.prevJsonKey)
 //@   ensures [no-rewrite-for-kept-versions] ret1 == nil && ret0 != nil && !equalG ==> len(ret0.RewriteKeys) == 0
+//@   ensures [rewrites-are-paired] ret0 != nil ==> len(ret0.RewriteKeys) == len(ret0.RewriteValues)
 //@   at call IsEntityEqual#1
 //@     ghost equalG := $result
 //@   loop 1
@@ -44,14 +45,24 @@ package dataset
 // before collecting would delete a version's change-log entry one transaction ahead of its json key and of the
 // latest-pointer rewrite); the collected instructions are dropped only after a flush applied them; errors are returned.
 // Callers rely on: it does not touch forEntity's iterator or loop variables (frame taken on trust: they are not captured).
-//@ assumed (*compactionInstruction).append
-//@   pure
-//@ assumed (*compactionInstruction).reset
-//@   pure
+// the instruction queues: delete keys, and latest-pointer rewrites as two parallel lists (key i is rewritten to value i)
+//@ unit (*compactionInstruction).append
+//@   prop C12
+//@   requires i != nil && instr != nil && i != instr
+//@   ensures [C12:collected-queues-grow-by-the-new-instruction] len(i.DeleteKeys) == old(len(i.DeleteKeys)) + len(instr.DeleteKeys) && len(i.RewriteKeys) == old(len(i.RewriteKeys)) + len(instr.RewriteKeys) && len(i.RewriteValues) == old(len(i.RewriteValues)) + len(instr.RewriteValues)
+//@   ensures [C12:the-collected-instruction-itself-is-left-alone] len(instr.DeleteKeys) == old(len(instr.DeleteKeys)) && len(instr.RewriteKeys) == old(len(instr.RewriteKeys)) && len(instr.RewriteValues) == old(len(instr.RewriteValues))
+//@   modifies compactionInstruction.DeleteKeys, compactionInstruction.RewriteKeys, compactionInstruction.RewriteValues, [][]uint8
+//@ unit (*compactionInstruction).reset
+//@   prop C12
+//@   requires i != nil
+//@   ensures [C12:a-reset-empties-all-three-queues-so-rewrite-keys-and-values-stay-paired] len(i.DeleteKeys) == 0 && len(i.RewriteKeys) == 0 && len(i.RewriteValues) == 0
+//@   modifies compactionInstruction.DeleteKeys, compactionInstruction.RewriteKeys, compactionInstruction.RewriteValues
 //@ assumed dataset.toEntity
 //@   pure
+// ASSUMED for any strategy (proved for the deduplication strategy below): an instruction pairs its rewrite keys and values
 //@ assumed (dataset.CompactionStrategy).eval
 //@   pure
+//@   ensures ret0 != nil ==> len(ret0.RewriteKeys) == len(ret0.RewriteValues)
 //@ unit (*CompactionWorker).forEntity$1
 //@   prop C12
 //@   frame-assumed preserves Elem.*, F.*, Map*, Cell.*, G.*
@@ -60,6 +71,9 @@ package dataset
 //@   ghost flushedG bool = false
 //@   ghost flushErrG iface
 //@   ensures [C12:flush-error-is-returned] flushedG ==> result == flushErrG
+//@   ensures [C12:rewrite-keys-and-values-stay-paired] len(ops.RewriteKeys) == len(ops.RewriteValues)
+//@   at call eval#1
+//@     assume $result0 != ops
 //@   at call append#1 before
 //@     assert [C12:collected-instruction-is-the-one-the-strategy-returned] $arg1 == instr && $arg0 == ops
 //@     ghost collectedG := true
@@ -78,6 +92,8 @@ package dataset
 //@   ghost pendingKeyG slice
 //@   ghost pendingBytesG slice
 //@   requires c != nil && ops != nil && len(ops.RewriteKeys) == len(ops.RewriteValues)
+//@   at call NewIterator#1 before
+//@     assert [C12:only-the-versions-of-this-entity-in-this-dataset-are-walked] len(opt.Prefix) == 14 && encBE16(opt.Prefix, 0) == 1 && encBE64(opt.Prefix, 2) == internalEntityID && encBE32(opt.Prefix, 10) == dsId
 //@   at call KeyCopy#1
 //@     ghost pendingKeyG := $result
 //@     ghost capturedG := capturedG + 1
@@ -109,6 +125,7 @@ package dataset
 
 //@ unit dataset.flushDeletes
 //@   prop C12
+//@   frame-assumed preserves Cell.*, compactionInstruction.*, CompactionWorker.*
 //@   requires ops != nil && len(ops.RewriteKeys) == len(ops.RewriteValues)
 //@   at $1 call Delete#1 before
 //@     assert [C12:deletes-go-through-the-flush-transaction] $arg0 == txn
